@@ -1403,15 +1403,23 @@ def do_reverse(value: str | t.Iterable[V]) -> str | t.Iterable[V]:
     if isinstance(value, str):
         return value[::-1]
 
-    try:
+    cls = type(value)
+
+    # Decide by capability instead of catching TypeError around code that
+    # runs the data's own methods.
+    if hasattr(cls, "__reversed__") or (
+        hasattr(cls, "__len__") and hasattr(cls, "__getitem__")
+    ):
         return reversed(value)  # type: ignore
-    except TypeError:
-        try:
-            rv = list(value)
-            rv.reverse()
-            return rv
-        except TypeError as e:
-            raise FilterArgumentError("argument must be iterable") from e
+
+    try:
+        it = iter(value)
+    except TypeError as e:
+        raise FilterArgumentError("argument must be iterable") from e
+
+    rv = list(it)
+    rv.reverse()
+    return rv
 
 
 @pass_environment
